@@ -46,8 +46,10 @@ def describe(prog, t, depth=0):
     if k == "param":
         return "arg%d" % t[2]
     if k == "call":
-        if depth >= 2:
-            return "%s(..)" % callee_name(t[1])
+        if depth >= 1:
+            # nested calls: only crate-local callees are named (dependency helper calls such as option
+            # constructors are elided so that swapping one does not rename the site)
+            return "%s(..)" % callee_name(t[1]) if t[1] in prog.fns else "_"
         return "%s(%s)" % (callee_name(t[1]), ",".join(describe(prog, a, depth + 1) for a in t[2]))
     if k == "field":
         return "%s.%s" % (describe(prog, t[1], depth + 1), t[2])
